@@ -5,6 +5,8 @@ import copy
 import numpy as np
 from hypothesis import strategies as st
 
+from ..core import sampled_from  # noqa: E402
+
 from .. import build, meshgen
 from ..core import Failure
 
@@ -33,13 +35,13 @@ NONTRIVIAL = {"lon", "lat", "conn", "swap", "extra_node", "extra_face", "grow", 
 @st.composite
 def _case(draw, tier):
     mesh = draw(meshgen.any_mesh(max_pts=14 if tier == "quick" else 40))
-    kind = draw(st.sampled_from(KINDS))
+    kind = draw(sampled_from(KINDS))
     v = {"kind": kind}
     nn, nf = len(mesh["nodes"]), len(mesh["faces"])
     if kind in ("lon", "lat", "lonlat"):
         v["index"] = draw(st.integers(0, nn - 1))
-        v["delta"] = draw(st.sampled_from([1e-9, 1e-6, 1e-3, 0.5, 3.0]) | st.floats(1e-9, 5.0))
-        v["sign"] = draw(st.sampled_from([-1, 1]))
+        v["delta"] = draw(sampled_from([1e-9, 1e-6, 1e-3, 0.5, 3.0]) | st.floats(1e-9, 5.0))
+        v["sign"] = draw(sampled_from([-1, 1]))
     elif kind == "conn":
         v["face"] = draw(st.integers(0, nf - 1))
         v["pos"] = draw(st.integers(0, 7))
@@ -49,29 +51,29 @@ def _case(draw, tier):
         v["pos"] = draw(st.integers(0, 7))
     elif kind == "ulp":
         v["index"] = draw(st.integers(0, nn - 1))
-        v["coord"] = draw(st.sampled_from([0, 1]))
-        v["sign"] = draw(st.sampled_from([-1, 1]))
+        v["coord"] = draw(sampled_from([0, 1]))
+        v["sign"] = draw(sampled_from([-1, 1]))
     elif kind == "extra_face":
         v["face"] = draw(st.integers(0, nf - 1))
     elif kind == "copy_edit":
         # a copy, then one entry of one side's stored arrays edited in place (through .values)
-        v["what"] = draw(st.sampled_from(["conn", "conn", "lon", "lat"]))
-        v["side"] = draw(st.sampled_from(["copy", "orig"]))
+        v["what"] = draw(sampled_from(["conn", "conn", "lon", "lat"]))
+        v["side"] = draw(sampled_from(["copy", "orig"]))
         v["index"] = draw(st.integers(0, nn - 1))
         v["face"] = draw(st.integers(0, nf - 1))
     elif kind == "nongrid":
-        v["obj"] = draw(st.sampled_from(["none", "int", "str", "dataset", "ndarray", "tuple"]))
+        v["obj"] = draw(sampled_from(["none", "int", "str", "dataset", "ndarray", "tuple"]))
     # constructor and history: grids from Cartesian face vertices derive lon/lat lazily; derived quantities may
     # have been materialised on one side only before the comparison
-    ctor = draw(st.sampled_from(["topology", "topology", "topology", "vertices-xyz", "vertices-latlon"]))
+    ctor = draw(sampled_from(["topology", "topology", "topology", "vertices-xyz", "vertices-latlon"]))
     if ctor != "topology" and kind not in ("lon", "lat", "lonlat", "same", "copy", "nongrid", "copy_edit"):
         ctor = "topology"
     if ctor != "topology" and "delta" in v:
         v["delta"] = max(v["delta"], 1e-6)
     derived = ["edge_node_connectivity", "node_face_connectivity", "face_areas", "node_lon", "node_x", "face_lon", "n_edge", "bounds"]
     hist = {
-        "g1": sorted(draw(st.sets(st.sampled_from(derived), max_size=3))) if draw(st.booleans()) else [],
-        "g2": sorted(draw(st.sets(st.sampled_from(derived), max_size=3))) if draw(st.booleans()) else [],
+        "g1": sorted(draw(st.sets(sampled_from(derived), max_size=3))) if draw(st.booleans()) else [],
+        "g2": sorted(draw(st.sets(sampled_from(derived), max_size=3))) if draw(st.booleans()) else [],
     }
     return {"mesh": mesh, "variant": v, "ctor": ctor, "history": hist}
 
@@ -240,6 +242,9 @@ def run_case(case, ctx):
 
             d = max(float(np.max(np.abs(np.asarray(S.ll2xyz(*a)) - np.asarray(S.ll2xyz(*b))))) for a, b in zip(mesh["nodes"], m2["nodes"]))
             expect = True if d == 0.0 else (None if d < 1e-12 else False)
+            # a changed point inside the library's documented pole cap (|z| > 1 - 1e-8) may be reported as the pole
+            if expect is False and any(a != b and (abs(a[1]) > 89.99 or abs(b[1]) > 89.99) for a, b in zip(mesh["nodes"], m2["nodes"])):
+                expect = None
 
     if k != "copy":
         for q in case.get("history", {}).get("g2", []):
